@@ -730,6 +730,10 @@ func init() {
 	opEntry("OnErrorResumeNextWith", Blocks|Resub, m1(func(vs []int, end rec.Kind) ([]string, Term) {
 		return append(ri(vs), ri([]int{7, 8})...), tC
 	}), func(b *B) op { return ro.OnErrorResumeNextWith(ro.Just(7, 8)) })
+	// the last source of the list fails: its error - and the context it travels with - ends the output
+	opEntry("OnErrorResumeNextWith(Throw)", Blocks|Resub, m1(func(vs []int, end rec.Kind) ([]string, Term) {
+		return ri(vs), tE(errFactory)
+	}), func(b *B) op { return ro.OnErrorResumeNextWith(ro.Throw[int](errFactory)) }, "OnErrorResumeNextWith")
 	opEntry("OnErrorResumeNextWith()", 0, mmap(func(x, i int) any { return x }), func(b *B) op { return ro.OnErrorResumeNextWith[int]() }, "OnErrorResumeNextWith")
 	opEntry("ThrowIfEmpty", 0, m1(func(vs []int, end rec.Kind) ([]string, Term) {
 		if len(vs) == 0 && end == rec.Complete {
